@@ -16,7 +16,7 @@ from harness.common import main, MachineryError
 RESP = b'HTTP/1.1 200 OK\r\nContent-Length: 2\r\n\r\nok'
 
 
-def make_request(rnd, auth, framing, nbody):
+def make_request(rnd, auth, framing, nbody, last=False):
     form = rnd.choice(['absolute', 'absolute-port'])
     raw, desc = httpgen.request(rnd, framing, nbody=nbody, form=form, nh=rnd.randrange(0, 4),
                                 chunk_opts=rnd.choice([{}, {'ext': True}, {'trailer': True}, {'lead0': True}]))
@@ -33,8 +33,10 @@ def make_request(rnd, auth, framing, nbody):
         extra += rnd.choice([b'Host', b'host', b'HOST']) + b': origin.example\r\n'
     if rnd.random() < .3:
         extra += b'Connection: keep-alive\r\n'
-    # keep-alive: force HTTP/1.1 so that follow-up requests are possible
-    line = line.rsplit(b' ', 1)[0] + b' HTTP/1.1'
+    # keep-alive: HTTP/1.1 so that follow-up requests are possible; the LAST request of a conversation may be HTTP/1.0
+    version = b'HTTP/1.0' if last and rnd.random() < .5 else b'HTTP/1.1'
+    line = line.rsplit(b' ', 1)[0] + b' ' + version
+    desc['version'] = version.decode()
     desc['proxy_headers'] = extra.decode('latin1')
     return line + b'\r\n' + extra + rest, desc
 
@@ -61,7 +63,7 @@ def run(chk):
         for i in range(nreq):
             framing = ['none', 'cl', 'chunked'][(k + i) % 3]
             nbody = 0 if framing == 'none' else rnd.choice([0, 1, 5, 17, 300]) if framing == 'chunked' else rnd.choice([1, 5, 17, 300])
-            raw, d = make_request(rnd, auth, framing, nbody)
+            raw, d = make_request(rnd, auth, framing, nbody, last=(i == nreq - 1))
             style = styles[(k // 3 + i) % len(styles)]
             if style == 'bytes' and len(raw) > 260:
                 style = 'few'
